@@ -271,6 +271,11 @@ class CanAssignContext(Protocol):
     ) -> bool:
         return False
 
+    def has_assumed_compatibilities(self) -> bool:
+        """Whether any compatibility is currently being assumed (i.e., we are inside
+        a recursive protocol check)."""
+        return False
+
     def assume_compatibility(
         self,
         left: "pyanalyze.type_object.TypeObject",
